@@ -67,7 +67,7 @@ package helpers
 //@   ensures C02.clone: fresh(c) && c != nil && c.Type == n.Type && c.Data == n.Data && c.Attr == n.Attr && c.FirstChild == nil && c.NextSibling == nil
 //@ func ShallowCloneWithAttrs(n) (c)
 //@   modifies nothing
-//@   ensures C02+C10.clone.attrs: fresh(c) && c != nil && c.Type == n.Type && c.Data == n.Data && len(c.Attr) == len(n.Attr) &&
+//@   ensures C02+C10+C14.clone.attrs: fresh(c) && c != nil && c.Type == n.Type && c.Data == n.Data && len(c.Attr) == len(n.Attr) &&
 //@     (len(n.Attr) > 0 ==> fresh(c.Attr)) && forall i int :: 0 <= i && i < len(n.Attr) ==> c.Attr[i] == n.Attr[i]
 //@ func DeepCloneNode(n) (c)
 //@   modifies nothing
